@@ -71,6 +71,9 @@ pub enum Op {
     Set(u16, bool),
     /// grow by a fraction of the allowed growth, fill bit
     Grow(u16, bool),
+    /// resize to an absolute length (clipped to the capacity of fixed types); used by the
+    /// enumerated "unbounded growth" cases
+    ResizeTo(usize, bool),
     /// resize down to a fraction of the current length
     ShrinkTo(u16),
     Truncate(u16),
@@ -135,6 +138,7 @@ pub fn op_name_of(op: &Op) -> &'static str {
         Op::Pop => "pop",
         Op::Set(..) => "set",
         Op::Grow(..) => "resize-grow",
+        Op::ResizeTo(..) => "resize-to",
         Op::ShrinkTo(_) => "resize-shrink",
         Op::Truncate(_) => "truncate",
         Op::SignExtend(_) => "sign_extend",
@@ -270,6 +274,11 @@ pub fn step(z: &mut Z, m: &mut Bits, op: &Op, lim: &Limits) -> Result<StepInfo, 
             catch(|| z_match!(&mut *z, x => x.resize(n + g, bit(*b)))).map_err(pan)?;
             m.0.resize(n + g, *b);
         }
+        Op::ResizeTo(t, b) => {
+            let t = cap.map_or(*t, |c| (*t).min(c));
+            catch(|| z_match!(&mut *z, x => x.resize(t, bit(*b)))).map_err(pan)?;
+            m.0.resize(t, *b);
+        }
         Op::ShrinkTo(f) => {
             let k = frac(*f, n + 1);
             catch(|| z_match!(&mut *z, x => x.resize(k, Bit::One))).map_err(pan)?;
@@ -368,7 +377,7 @@ pub fn step(z: &mut Z, m: &mut Bits, op: &Op, lim: &Limits) -> Result<StepInfo, 
             info.risk = n % w != 0;
         }
         Op::ShiftRel { left, f, ty: nty, form } => {
-            let k = (frac(*f, n + 2) as u128).min((*nty).max());
+            let k = (frac(*f, n + 2) as u128).min((*nty).maxv());
             let amt = Nat::new(*nty, k);
             let nz = catch(|| z_match!(&*z, x => x.shift_x(*left, amt, *form).wrap())).map_err(pan)?;
             *z = nz;
@@ -509,7 +518,7 @@ pub fn step(z: &mut Z, m: &mut Bits, op: &Op, lim: &Limits) -> Result<StepInfo, 
     info.shrank = after < n;
     info.grew_cross = after > n && crosses(n, after, w, is_bv);
     info.shrank_cross = after < n && crosses(n, after, w, is_bv);
-    info.mutating = info.changed || matches!(op, Op::Bin { .. } | Op::Shift { .. } | Op::ShiftRel { .. } | Op::Not(_) | Op::Rot { .. } | Op::Append(_) | Op::Prepend(_) | Op::Insert(..) | Op::Extend(..) | Op::Grow(..) | Op::Push(_) | Op::Set(..));
+    info.mutating = info.changed || matches!(op, Op::Bin { .. } | Op::Shift { .. } | Op::ShiftRel { .. } | Op::Not(_) | Op::Rot { .. } | Op::Append(_) | Op::Prepend(_) | Op::Insert(..) | Op::Extend(..) | Op::Grow(..) | Op::ResizeTo(..) | Op::Push(_) | Op::Set(..));
     Ok(info)
 }
 
